@@ -108,6 +108,9 @@ func main() {
 	if !goHandle {
 		die("Serve: `go p.handleLoop(conn)` not found")
 	}
+	// Serve releases its listener when it returns: `defer l.Close()` is its first statement
+	serveBody := method(file, "Serve").Body
+	serveCloses := len(serveBody.List) > 0 && src(serveBody.List[0]) == "defer l.Close()"
 
 	// readRequest: the select has a `case <-p.closing:` whose body returns errClose
 	selClosing := false
@@ -219,6 +222,7 @@ func main() {
 	def("close_waits_under_lock", cLock < cWait && cWait < cUnlock, "Close: p.conns.Wait() runs between connsMu.Lock() and connsMu.Unlock()")
 	def("handler_adds_under_lock", hLock < hAdd && hAdd < hUnlock, "handleLoop: p.conns.Add(1) runs between connsMu.Lock() and connsMu.Unlock()")
 	def("handler_registers_in_goroutine", goHandle, "Serve: `go p.handleLoop(conn)`; the Add is the first thing handleLoop does")
+	def("serve_closes_listener_on_return", serveCloses, "Serve: `defer l.Close()` is the first statement (a listener is never left open by a Serve loop that returned)")
 	def("handler_closes_then_done", hDone < hClose && hUnlock < hDone, "handleLoop: `defer p.conns.Done()` is deferred BEFORE `defer conn.Close()` (LIFO: the socket is closed first)")
 	def("handler_early_exit_after_register", hClose < hExit, "handleLoop: `if p.Closing() { return }` comes after the Add and both defers")
 	def("reader_select_sees_closing", selClosing, "readRequest: select has `case <-p.closing: return nil, errClose`")
